@@ -38,7 +38,7 @@ class Result:
             "entries": [0, 0, 0], "graph_starts": 0, "graph_ends": 0,
             "empty_prefix_iris": 0, "max_depth": 0, "options_rows": 0,
             "namespace_rows": 0, "statements": 0, "implicit_graph_close": 0,
-            "graph_open_at_end": 0,
+            "graph_open_at_end": 0, "graph_start_terms": [],
         }
         self.n_rows = 0
         self.n_frames = 0
@@ -179,9 +179,11 @@ class RefDecoder:
             if row[1] is None:
                 raise SpecViolation("graph_start_without_graph", "graph_start with no graph term")
             a["graph_starts"] += 1
+            a["graph_start_terms"].append(None)
             if self.graph_open:
                 a["implicit_graph_close"] += 1
             self.graph = self.term(row[1], -1, True)
+            a["graph_start_terms"][-1] = self.graph
             self.graph_open = True
             return None
         if k == "graph_end":
